@@ -10,6 +10,7 @@ C20 — schema-level direct oracle: generated schema + elementary edit, on the r
   * the multiset of changes is independent of the order of type definitions.
 """
 import copy
+import json
 
 from gen import schema as gs
 
@@ -532,7 +533,7 @@ def check_pair(ctx, rng, edit_name, old_d, new_d, expected, element, extra, dire
             fails.append(("safe-retype-not-reported:%sput" % pos,
                           "%s position retyped %s -> %s (compatible) and no change names the element"
                           % (pos, gs.ty_str(ot), gs.ty_str(nt))))
-        if not named and not compat:
+        if not compat and not [c for c in named if c[1] == BREAKING]:
             fails.append(("unsafe-%sput-retype-not-breaking:%s" % (pos, divergence(ot, nt, pos)),
                           "%s position retyped %s -> %s, incompatible, but no breaking change names it"
                           % (pos, gs.ty_str(ot), gs.ty_str(nt))))
@@ -549,8 +550,11 @@ def check_pair(ctx, rng, edit_name, old_d, new_d, expected, element, extra, dire
                               "combined edit %s (%s): %d change(s) of class %s naming %s expected, %d reported"
                               % (edit_name, direction, want.count(cls), cls, element, got_n)))
     # classes that take something away from clients are BREAKING whatever their details (severity_table theorem)
+    # (a retyping that keeps every old use valid is reported with the COMPATIBLE severity since /repo bd0cf9e)
+    # retypings are judged above: BREAKING exactly when some old use stops being valid
+    retype = bool(extra and extra[0] in ("in", "out"))
     for c in named:
-        if c[0] in MUST_BREAK and c[1] != BREAKING:
+        if c[0] in MUST_BREAK and c[1] != BREAKING and not (c[0].endswith("ChangedType") and retype):
             fails.append(("removal-not-breaking:%s" % c[0], "%s reported with severity %d: %s" % (c[0], c[1], c[2])))
     if extra and extra[0] == "became-required" and named:
         sev = named[0][1]
@@ -805,6 +809,9 @@ def _run(ctx):
                 ctx.fail(sig, what, {"code_enum_seed": seed, "what": what})
             for sig, what in history_case(ctx, seed):
                 ctx.fail(sig, what, {"history_seed": seed, "what": what})
+        if i % 2 == 0:
+            for sig, what in code_default_case(ctx, seed):
+                ctx.fail(sig, what, {"code_default_seed": seed, "what": what})
         if i < 2:
             import random
             rng = random.Random(seed)
@@ -917,6 +924,59 @@ def code_enum_case(ctx, seed):
                     fails.append(("code-enum:deprecation-attributed-to-wrong-member", "deprecating %s (internal values swapped) reported as %s" % (x, dep[:2])))
             except Exception as e:  # noqa
                 ctx.stat("code-enum-build-skipped:" + type(e).__name__)
+    return fails
+
+
+# default values that are EQUAL FOR PYTHON (`1 == True == 1.0`, `[0] == [False]`) but different GraphQL values, next to
+# pairs that are the same value (list / tuple spelling included): code-built schemas, custom scalar (hunt C20/3)
+DEFAULT_PAIRS = [(1, True), (0, False), (1, 1.0), (0.0, False), ([0], [False]), ({"k": 1}, {"k": True}), ([1, [2.0]], [1, [2]]),
+                 (1, 1), ([1, 2], (1, 2)), ({"a": [1], "b": None}, {"b": None, "a": [1]}), ("x", "x"), (1, 2), ("1", 1),
+                 (None, 0), (None, None), (True, True), ({"k": 1}, {"k": 1, "j": 2})]
+
+
+def code_default_case(ctx, seed):
+    """`diff_schema` on two code-built schemas that differ in ONE default value of a custom scalar position: a
+    `*DefaultValueChange` naming the element is reported exactly when the two values differ as data."""
+    import random
+    import canon_schema as cs
+    from py_gql.schema import Schema, ObjectType, Field, Argument, InputObjectType, InputField, ScalarType, Directive, Int
+    from py_gql.schema.differ import diff_schema
+    rng = random.Random(seed)
+    a, b = rng.choice(DEFAULT_PAIRS)
+    if rng.random() < 0.5:
+        a, b = b, a
+    pos = rng.choice(["arg", "input", "directive"])
+
+    def build(v):
+        J = ScalarType("J", serialize=lambda x: x, parse=lambda x: x)
+        In = InputObjectType("In", [InputField("ia", J, default_value=v if pos == "input" else 0)])
+        q = ObjectType("Query", [Field("f", Int, args=[Argument("xa", J, default_value=v if pos == "arg" else 0),
+                                                       Argument("i", In)])])
+        dr = Directive("dd", ["FIELD"], args=[Argument("ya", J, default_value=v if pos == "directive" else 0)])
+        return Schema(q, directives=[dr])
+
+    fails = []
+    o, n = build(a), build(b)
+    element = {"arg": "xa", "input": "ia", "directive": "ya"}[pos]
+    cls = {"arg": "FieldArgumentDefaultValueChange", "input": "InputFieldDefaultValueChange",
+           "directive": "DirectiveArgumentDefaultValueChange"}[pos]
+    chs = list(diff_schema(o, n))
+    ch = [(type(c).__name__, int(c.severity), str(c.message)) for c in chs]
+    differ = json.dumps(cs.canon_value(a), sort_keys=True) != json.dumps(cs.canon_value(b), sort_keys=True)
+    named = [c for c in ch if c[0] == cls and element in c[2]]
+    ctx.stat("code-default:%s:%s" % (pos, "differ" if differ else "same"))
+    ctx.nontrivial(("code-default", pos, repr(a), repr(b)))
+    if differ and not named:
+        fails.append(("default-edit-not-reported:python-equal:%s" % pos,
+                      "default of %s changed %r -> %r (different values) and no %s names it; got %s" % (element, a, b, cls, ch)))
+    if not differ and ch:
+        fails.append(("equal-defaults-reported:%s" % pos, "defaults %r / %r are the same value but %s was reported" % (a, b, ch)))
+    if ctx.model_ok:
+        real = sorted([type(c).__name__, int(c.severity), change_key(c)] for c in chs)
+        req = {"op": "diff", "min": 0, "old": cs.dump_schema(o, include_builtin=True), "new": cs.dump_schema(n, include_builtin=True)}
+        for side in ("old", "new"):
+            req[side]["directives"] = [d for d in req[side]["directives"] if d["name"] not in ("include", "skip", "deprecated")]
+        ctx.pending_model.append(("code-default:" + pos, "fwd", real, req, "code-built default %r" % (a,), "code-built default %r" % (b,)))
     return fails
 
 
@@ -1114,6 +1174,9 @@ def replay(ctx, data):
         return not code_enum_case(ctx, inp["code_enum_seed"])
     if "history_seed" in inp:
         return not history_case(ctx, inp["history_seed"])
+    if "code_default_seed" in inp:
+        ctx.pending_model = []
+        return not code_default_case(ctx, inp["code_default_seed"])
     if inp.get("same_response_shape_case"):
         return not same_response_shape_case(ctx)
     if "schema_case_seed" in inp:
